@@ -74,15 +74,25 @@ type ZN0 struct {
 type ZXA struct {
 	X     int
 	OnlyA string
+	Opt   interface{}
 }
 type ZXB struct{ ZXA }
 type ZXP struct {
 	X     int
 	OnlyP string
+	Opt   interface{}
 }
 type ZPtrShallow struct {
 	ZXB
 	*ZXP
+}
+
+// the same with the embedded pointer one level down (depth 2) and the by-value field at depth 3
+type ZXMeta struct{ *ZXP }
+type ZXC struct{ ZXB }
+type ZPtrNested struct {
+	ZXMeta
+	ZXC
 }
 
 // a method of the outer struct has the name of a field promoted from an embedded struct: as in Go the
@@ -152,6 +162,7 @@ type ZOuter struct {
 	M8     map[uint8]string  // keys that a number may not fit
 	PM     *map[string]int   // a map behind a pointer
 	ME     map[string]string // has the empty string as a key
+	MAK    map[[2]interface{}]string
 	Iface  interface{}
 	SF     ZShadowFirst
 	SL     ZShadowLast
@@ -160,6 +171,7 @@ type ZOuter struct {
 	Nest   ZN0
 	Win    []string // a window on a longer backing array: cap > len
 	PS     ZPtrShallow
+	PN     ZPtrNested
 	Shape  ZShape
 	PShape ZShape
 	Shapes []ZShape
@@ -203,6 +215,7 @@ func zooRoot(variant int) interface{} {
 		PM:    &map[string]int{"pk": 5},
 		MK:    map[interface{}]string{"ik": "interface-key", ZKey("ik"): "entry-under-a-key-of-a-defined-string-type", 7: "entry-under-an-int-key", ZKey("only-named"): "entry-whose-key-exists-as-ZKey-only", "only-plain": "entry-whose-key-exists-as-string-only"},
 		ME:    map[string]string{"": "value-under-empty-key", "k": "v"},
+		MAK:   map[[2]interface{}]string{{"a", 1}: "entry-under-an-array-key"},
 		Iface: ZInner{Val: 5, Name: "iface-inner"},
 		SF:    ZShadowFirst{Title: "sf-outer-title", ZBase: ZBase{ID: 1, Title: "sf-base-title"}},
 		SL:    ZShadowLast{ZBase: ZBase{ID: 2, Title: "sl-base-title"}, Title: "sl-outer-title"},
@@ -225,7 +238,8 @@ func zooRoot(variant int) interface{} {
 		MShape: map[string]ZShape{"sq": ZRect{W: 3, H: 3, Label: "sq"}},
 		DocU:   ZDocU{zhidden: zhidden{HID: 71, HName: "hidden-val"}, Title: "docu"},
 		DocUP:  ZDocUP{zhidden: &zhidden{HID: 72, HName: "hidden-ptr"}, Title: "docup"},
-		PS:     ZPtrShallow{ZXB: ZXB{ZXA{X: 1, OnlyA: "only-a"}}, ZXP: &ZXP{X: 2, OnlyP: "only-p"}},
+		PS:     ZPtrShallow{ZXB: ZXB{ZXA{X: 1, OnlyA: "only-a", Opt: "opt-a"}}, ZXP: &ZXP{X: 2, OnlyP: "only-p", Opt: (*ZInner)(nil)}},
+		PN:     ZPtrNested{ZXMeta: ZXMeta{&ZXP{X: 4, OnlyP: "only-p-nested", Opt: map[string]int(nil)}}, ZXC: ZXC{ZXB{ZXA{X: 3, OnlyA: "only-a-nested", Opt: "opt-a-nested"}}}},
 	}
 	switch variant {
 	case 0:
@@ -235,6 +249,7 @@ func zooRoot(variant int) interface{} {
 	case 2: // nil pointers / nil maps / nil interface everywhere
 		o.ZPEmb, o.PIn, o.PPIn, o.M, o.MA, o.Iface, o.Items = nil, nil, nil, nil, nil, nil, nil
 		o.PS.ZXP = nil
+		o.PN.ZXP = nil
 		return &o
 	case 3: // typed nil in the interface, pointer to nil pointer
 		var np *ZInner
@@ -271,7 +286,21 @@ type zStep struct {
 
 // variables that C06 / C17 templates can use as keys of the interface-keyed map
 var zIfaceKeys = map[string]interface{}{"keyNamed": ZKey("ik"), "keyPlain": "ik", "keyInt": 7, "keyAbsent": ZKey("nope"), "keySlice": []int{1}, "keyDeepUnhashable": zDeepKey{V: []int{1}},
-	"keyOnlyNamed": ZKey("only-named"), "keyPlainOfNamed": "only-named", "keyNamedOfPlain": ZKey("only-plain")}
+	"keyOnlyNamed": ZKey("only-named"), "keyPlainOfNamed": "only-named", "keyNamedOfPlain": ZKey("only-plain"),
+	// keys of an array type with interface elements: comparable as a type, hashable unless an element holds a slice
+	"keyArr": [2]interface{}{"a", 1}, "keyArrAbsent": [2]interface{}{"b", 2}, "keyArrUnhashable": [2]interface{}{[]int{1}, 2}}
+
+// zHashable: whether v can be used as a map key (the type may say yes and the value no)
+func zHashable(v interface{}) (ok bool) {
+	defer func() {
+		if recover() != nil {
+			ok = false
+		}
+	}()
+	m := map[interface{}]bool{}
+	m[v] = true
+	return true
+}
 
 // zDeepKey is comparable as a type; with a slice in V a value of it cannot be hashed all the same
 type zDeepKey struct{ V interface{} }
@@ -393,8 +422,11 @@ func zResolve(root interface{}, steps []zStep) (val reflect.Value, st zStatus, w
 			if d.Kind() != reflect.Map || (isNil && d.Kind() != reflect.Map) {
 				return v, zErr, "key on non-map"
 			}
-			if _, deep := zIfaceKeys[s.Var].(zDeepKey); deep || !reflect.TypeOf(zIfaceKeys[s.Var]).Comparable() {
+			if !zHashable(zIfaceKeys[s.Var]) {
 				return v, zErr, "key that cannot be hashed"
+			}
+			if !reflect.TypeOf(zIfaceKeys[s.Var]).AssignableTo(d.Type().Key()) {
+				return v, zErr, "key of another type"
 			}
 			e := d.MapIndex(reflect.ValueOf(zIfaceKeys[s.Var]))
 			if !e.IsValid() {
@@ -545,6 +577,9 @@ func zOptions(v reflect.Value) (valid, invalid []zStep) {
 				valid = append(valid, zStep{Kind: "ikey", Var: name})
 			}
 			invalid = append(invalid, zStep{Kind: "ikey", Var: "keySlice"}, zStep{Kind: "ikey", Var: "keyDeepUnhashable"}) // keys that cannot be hashed
+		} else if d.Type().Key().Kind() == reflect.Array {
+			valid = append(valid, zStep{Kind: "ikey", Var: "keyArr"}, zStep{Kind: "ikey", Var: "keyArrAbsent"})
+			invalid = append(invalid, zStep{Kind: "ikey", Var: "keyArrUnhashable"})
 		} else {
 			for _, k := range keys {
 				valid = append(valid, zStep{Kind: "key", I: int(k.Convert(reflect.TypeOf(0)).Int())})
